@@ -3,20 +3,35 @@
 Correspondence: real `latlon_from_poly` / `get_location` with recorded draws against the Lean sampling
 model, given the triangulation returned by the real `triangulate_nonconvex_multi` (validated: vertices
 are polygon vertices, exact area sum).  Oracle: exact rational point-in-polygon on the implementation's
-output, axis convention, GeoJSON property join against an independent join, metric offsets converted
-back to metres."""
-import io, json, importlib, math
+output, particle counts, axis convention, GeoJSON property join against an independent join, metric
+offsets converted back to metres, degree<->metre conversions against the radii of the WGS84 ellipsoid."""
+import io, json, importlib, math, os, tempfile
 import numpy as np
 from .common import Driver, F, I, L, unF, RngRecorder
 from . import geom, ibmrun
 
-RULE = ("random simple polygons (star-shaped 3..12 vertices, comb/L-shaped non-convex, both orientations, non-symmetric), "
-        "1..4 pairwise disjoint polygons, list / multi-polygon / metric-offset / GeoJSON (Polygon and MultiPolygon features with "
-        "heterogeneous property tables) / point forms, centres at latitudes -89..89 and any longitude incl. on / next to the antimeridian, num in 0..40; draws recorded with u=0 and "
-        "1-2^-53 injected. Non-trivial: num >= 1.")
+RULE = ("random simple polygons (star-shaped 3..12 vertices, comb/L-shaped non-convex, both orientations, non-symmetric, radii 2e-4..2 degrees), "
+        "1..4 pairwise disjoint polygons, list / tuple / numpy / multi-polygon / metric-offset / GeoJSON / point forms; polygon centres (all polygon forms, "
+        "also GeoJSON) at mid latitudes, on / next to / straddling the antimeridian and the prime meridian, far west, and at latitudes +-85 / +-88.5; "
+        "GeoJSON: Polygon and MultiPolygon features, 1..4 features with 1..3 polygons, polygon radii 2e-4 / 1e-3 / 0.01 / 1 degree and integer-valued "
+        "coordinates, 2-D and 3-D coordinates, foreign members (crs, name, bbox, id), properties object / empty / null / absent, heterogeneous property "
+        "tables with numeric, text (non-ASCII too), boolean and null values, rarely a property called longitude / latitude; read from a stream or from a "
+        "UTF-8 file by name; offset centres at latitudes -89..89 and any longitude incl. on / next to the antimeridian, float and integer centres / offsets; "
+        "points as float / int / numpy scalars in lists and tuples; num in 0..40 (0, 1, 2 included in every form); draws recorded with u=0 and 1-2^-53 "
+        "injected in every form; conversions at latitudes 0, +-60, +-88, +-88.9, +-89 and random, scalar / list / array arguments, 1e-3..1e6 m; the "
+        "sibling sampler get_polygon_sample on the same polygons started at a random vertex. Non-trivial: num >= 1.")
 ASSUMPTIONS = ["the external `triangle` library's triangulation is validated per case (vertices, exact area sum), not proved to cover the polygon",
-               "positions within 1e-11 (relative) outside an edge are counted as on the edge (floating-point evaluation of the convex combination)"]
+               "positions within 1e-11 (relative) outside an edge are counted as on the edge (floating-point evaluation of the convex combination)",
+               "a GeoJSON property whose value is null is 'no value': the particle may carry None or NaN (a property the feature does not have: NaN)",
+               "'on the WGS84 ellipsoid' is read as: the metres per radian of latitude, and per radian of longitude divided by cos(lat), lie between the "
+               "smallest (b^2/a) and the largest (a^2/b) radius of curvature of the WGS84 ellipsoid (any latitude convention satisfies this)"]
 SITE = "ladim_plugins/release/makrel.py"
+
+# WGS84 (EPSG:7030): semi-major axis and semi-minor axis, written down independently of the implementation
+WGS_A = 6378137.0
+WGS_B = 6356752.314245179
+R_MIN = WGS_B * WGS_B / WGS_A        # meridional radius of curvature at the equator: the smallest radius of curvature
+R_MAX = WGS_A * WGS_A / WGS_B        # radius of curvature at the poles: the largest
 
 
 def gen_polys(rng, k=None, clon=None, clat=None, r=None):
@@ -30,23 +45,214 @@ def gen_polys(rng, k=None, clon=None, clat=None, r=None):
     return polys      # lists of (lon, lat)
 
 
+def gen_centre(rng):
+    """(clon, clat, r, tag) for gen_polys; None = gen_polys' own default.  Polygons are plain coordinate lists: the
+    code does not wrap longitudes, so a polygon straddling 180 has vertices on both sides of 180."""
+    t = rng.random()
+    if t < 0.5:
+        return None, None, None, "mid"
+    if t < 0.78:
+        return rng.choice([179.9, -179.95, 180.0, -180.0, 179.9999, 0.0, -0.3, -150.0, -100.0]), None, None, "meridian"
+    r = rng.choice([0.01, 0.5, 2e-4])           # |lat| stays below 90: 88.5 + 0.6*0.5 + 3*0.37*0.5 < 89.4
+    clat = rng.choice([88.5, -88.5, 85.0, -85.0])
+    if t < 0.92:
+        return None, clat, r, "polar"
+    return rng.choice([179.9, 180.0, -180.0, 0.0]), clat, r, "polar+meridian"
+
+
+def int_polygon(rng, cx, cy, r):
+    """simple polygon with integer-valued coordinates (Python ints)"""
+    while True:
+        p = geom.random_polygon(rng, cx, cy, r)
+        q = [(int(round(x)), int(round(y))) for x, y in p]
+        if geom.is_simple(q):
+            return q
+
+
 def tri_toks(tris):
     return I(len(tris)) + " " + " ".join(" ".join(F(v) for v in (t[0][0], t[0][1], t[1][0], t[1][1], t[2][0], t[2][1])) for t in tris)
 
 
-def check_positions(ctx, drv, pend, mk, polys, lat, lon, polynum, rec, cs, what):
+def check_positions(ctx, drv, pend, mk, polys, lat, lon, polynum, rec, cs, what, num=None):
     """polys: list of [(lon,lat)]; lat/lon/polynum: implementation output"""
-    n = len(lat)
+    if num is not None:
+        lens = [len(lat), len(lon)] + ([len(polynum)] if polynum is not None else [])
+        ctx.oracle(all(l == num for l in lens), "C03.%s.count" % what, SITE,
+                   "%d particles requested, returned columns have lengths %r" % (num, lens), cs)
+    n = min(len(lat), len(lon)) if num is not None else len(lat)
     for i in range(n):
-        p = polys[int(polynum[i])] if polynum is not None else None
+        p = polys[int(polynum[i])] if polynum is not None and i < len(polynum) and 0 <= int(polynum[i]) < len(polys) else None
         if p is not None:
             ok = geom.inside_tol(p, lon[i], lat[i])
+        elif polynum is not None:
+            ok = False
         else:
             ok = any(geom.inside_tol(q, lon[i], lat[i]) for q in polys)
         ctx.oracle(ok, "C03.%s.outside_polygon" % what, SITE,
                    "particle %d at (lon %r, lat %r) is outside its polygon" % (i, lon[i], lat[i]), dict(cs, particle=i))
     if polynum is not None:
         ctx.oracle(all(0 <= int(k) < len(polys) for k in polynum), "C03.%s.polynum_range" % what, SITE, "polygon index out of range", cs)
+
+
+def check_schedule(ctx, rec, n, what, cs):
+    """every non-point location form draws exactly like latlon_from_poly: rand(n) then rand(2n) (the model's declared schedule)"""
+    exp = [("rand", (n,)), ("rand", (2 * n,))]
+    if rec.schedule() != exp:
+        ctx.disagreement(what + ".draw_schedule", "model declares %r, implementation requested %r" % (exp, rec.schedule()), cs)
+        return False
+    ctx.schedule_matches += 1
+    return True
+
+
+def in_band(v):
+    # 1e-9 relative: the band is 1 % wide; the quotient is formed with math.cos at |lat| <= 89 (relative error < 1e-13) and a handful of roundings
+    return R_MIN * (1 - 1e-9) <= v <= R_MAX * (1 + 1e-9)
+
+
+def conversion_checks(ctx, mk, lat):
+    """degree<->metre conversions at reference latitude `lat`: mutual inverses (both directions, scalar / list / array arguments)
+    and on the WGS84 ellipsoid (local radii between the extreme radii of curvature), judged without the implementation's other half."""
+    rng = ctx.rng
+    site = SITE + "::metric_diff_to_degrees/degree_diff_to_metric"
+    mag = rng.choice([1e-3, 1.0, 50.0, 1e4, 1e6])
+    dx0 = rng.choice([-1, 1]) * rng.uniform(0.1, 1.0) * mag; dy0 = rng.choice([-1, 1]) * rng.uniform(0.1, 1.0) * mag
+    cs = dict(lat=lat, dx=dx0, dy=dy0)
+    c = math.cos(math.radians(lat))
+    # metres -> degrees, on the ellipsoid
+    dl, dp = mk.metric_diff_to_degrees(dx0, dy0, lat)
+    dl = float(dl); dp = float(dp)
+    ok = dl != 0 and dp != 0 and math.isfinite(dl) and math.isfinite(dp) and in_band(dx0 / (math.radians(dl) * c)) and in_band(dy0 / math.radians(dp))
+    ctx.oracle(ok, "C03.conversion.metric_to_degrees_not_wgs84", site,
+               "(%r, %r) m at lat %r -> (%r, %r) degrees: radii outside [%r, %r]" % (dx0, dy0, lat, dl, dp, R_MIN, R_MAX), cs)
+    # degrees -> metres, on the ellipsoid
+    gl = rng.choice([-1, 1]) * rng.uniform(0.1, 1.0) * rng.choice([1e-6, 1e-3, 0.1, 2.0])
+    gp = rng.choice([-1, 1]) * rng.uniform(0.1, 1.0) * rng.choice([1e-6, 1e-3, 0.1, 0.9])
+    mx, my = mk.degree_diff_to_metric(gl, gp, lat)
+    mx = float(mx); my = float(my)
+    ok = math.isfinite(mx) and math.isfinite(my) and in_band(mx / (math.radians(gl) * c)) and in_band(my / math.radians(gp))
+    ctx.oracle(ok, "C03.conversion.degrees_to_metric_not_wgs84", site,
+               "(%r, %r) degrees at lat %r -> (%r, %r) m: radii outside [%r, %r]" % (gl, gp, lat, mx, my, R_MIN, R_MAX), dict(lat=lat, dlon=gl, dlat=gp))
+    # mutual inverses, both directions.  Each direction is two multiplications / divisions by constants and one by the local
+    # radius (< 10 roundings in all), so the round trip is exact to 1e-13 relative.
+    bx, by = mk.degree_diff_to_metric(dl, dp, lat)
+    ctx.oracle(abs(bx - dx0) <= 1e-13 * abs(dx0) and abs(by - dy0) <= 1e-13 * abs(dy0), "C03.conversion.not_inverse", SITE,
+               "(%r,%r) m -> deg -> (%r,%r) m at lat %r" % (dx0, dy0, bx, by, lat), cs)
+    hl, hp = mk.metric_diff_to_degrees(mx, my, lat)
+    ctx.oracle(abs(hl - gl) <= 1e-13 * abs(gl) and abs(hp - gp) <= 1e-13 * abs(gp), "C03.conversion.not_inverse", SITE,
+               "(%r,%r) deg -> m -> (%r,%r) deg at lat %r" % (gl, gp, hl, hp, lat), dict(lat=lat, dlon=gl, dlat=gp))
+    # sequence arguments (get_location_offset passes the offset lists as they are)
+    m = rng.randrange(1, 6)
+    xs = [rng.uniform(-1, 1) * mag for _ in range(m)]; ys = [rng.uniform(-1, 1) * mag for _ in range(m)]
+    kind = rng.choice(["list", "array", "intlist"])
+    if kind == "intlist":
+        xs = [int(round(v)) for v in xs]; ys = [int(round(v)) for v in ys]
+    ax, ay = (np.array(xs), np.array(ys)) if kind == "array" else (xs, ys)
+    ctx.branch("conversion.args." + kind)
+    al, ap = mk.metric_diff_to_degrees(ax, ay, lat)
+    qx, qy = mk.degree_diff_to_metric(np.asarray(al), np.asarray(ap), lat)
+    ok = np.shape(al) == (m,) and np.shape(ap) == (m,) and np.shape(qx) == (m,) and np.shape(qy) == (m,) and \
+        all(abs(qx[i] - xs[i]) <= 1e-13 * abs(xs[i]) and abs(qy[i] - ys[i]) <= 1e-13 * abs(ys[i]) for i in range(m))
+    ctx.oracle(ok, "C03.conversion.not_inverse", SITE, "%s arguments (%r, %r) m -> deg -> (%r, %r) m at lat %r" % (kind, xs, ys, qx, qy, lat),
+               dict(lat=lat, xs=xs, ys=ys, kind=kind))
+
+
+def is_none(v):
+    return v is None or (isinstance(v, float) and v != v)
+
+
+def prop_same(got, want):
+    """does the particle carry the feature's value?  null / absent: no value.  Text stays text, a boolean stays a boolean,
+    numbers compare by value (pandas turns an integer column with gaps into floats)."""
+    if is_none(want):
+        return is_none(got)
+    if isinstance(want, bool) or isinstance(got, (bool, np.bool_)):
+        return isinstance(want, bool) and isinstance(got, (bool, np.bool_)) and bool(got) == want
+    if isinstance(want, str) or isinstance(got, str):
+        return isinstance(want, str) and isinstance(got, str) and got == want
+    return got == want
+
+
+PROP_NAMES = ("region", "farmid", "w", "name", "active", "depth", "navn_æøå")
+
+
+def gen_geojson(ctx):
+    """a FeatureCollection; returns (doc, flat, feats, tags) with flat = [(feature index, polygon [(lon,lat)], properties)]"""
+    rng = ctx.rng
+    tags = []
+    nfeat = rng.randrange(1, 5)
+    r = rng.choice([1.0, 1.0, 0.01, 1e-3, 2e-4, "int"])
+    clon, clat, _, ctag = gen_centre(rng)
+    if clat is not None and (r == "int" or r == 1.0):
+        r = 0.01                                   # keep |lat| < 90 next to the poles
+    tags.append("centre." + ctag)
+    base_lon = rng.uniform(-20, 20) if clon is None else clon
+    base_lat = rng.uniform(-50, 60) if clat is None else clat
+    R = 5.0 if r == "int" else r
+    tags.append("radius.%s" % r)
+    rich = rng.random() < 0.5
+    tags.append("props.rich" if rich else "props.numeric")
+    three_d = rng.random() < 0.2
+    if three_d:
+        tags.append("coords.3d")
+    feats = []; flat = []
+    kpoly = 0
+    for f in range(nfeat):
+        npol = rng.randrange(1, 4)
+        ps = []
+        for q in range(npol):
+            # 4 columns 3R apart (polygons are at most 2R wide), rows 1.6R apart (polygons are at most 1.2R high): pairwise disjoint
+            cx = base_lon + 3.0 * R * (kpoly % 4); cy = base_lat + 1.6 * R * (kpoly // 4) + 0.2 * R * (kpoly % 4)
+            ps.append(int_polygon(rng, cx, cy, R) if r == "int" else geom.random_polygon(rng, cx, cy, R)); kpoly += 1
+        props = {}
+        if rich:
+            for name in PROP_NAMES:
+                if rng.random() < 0.5:
+                    props[name] = rng.choice([f + 1, 10.5 * (f + 1), 7, "farm %d" % f, "blåskjell", "", True, False, None, -3, 0, 0.0, 1e300])
+        else:
+            for name in ("region", "farmid", "w"):
+                if rng.random() < 0.7:
+                    props[name] = rng.choice([f + 1, 10.5 * (f + 1), 7])
+        if three_d:
+            ring = lambda p: [[x, y, 12.5] for x, y in p] + [[p[0][0], p[0][1], 12.5]]
+        else:
+            ring = lambda p: [[x, y] for x, y in p] + [[p[0][0], p[0][1]]]
+        if npol == 1 and rng.random() < 0.5:
+            geomj = dict(type="Polygon", coordinates=[ring(ps[0])])
+        else:
+            geomj = dict(type="MultiPolygon", coordinates=[[ring(p)] for p in ps])
+        feat = dict(type="Feature", geometry=geomj)
+        if props:
+            feat["properties"] = props
+        else:
+            how = rng.choice(["absent", "empty", "null"])
+            tags.append("properties." + how)
+            if how == "empty":
+                feat["properties"] = {}
+            elif how == "null":
+                feat["properties"] = None       # RFC 7946: "properties" is an object or null
+        feats.append(feat)
+        for p in ps:
+            flat.append((f, p, props))
+    doc = dict(type="FeatureCollection", features=feats)
+    if rng.random() < 0.5:
+        tags.append("foreign_members")
+        doc["name"] = "område"
+        doc["crs"] = dict(type="name", properties=dict(name="urn:ogc:def:crs:OGC:1.3:CRS84"))
+        doc["bbox"] = [-180.0, -90.0, 180.0, 90.0]
+        for i, ft in enumerate(feats):
+            ft["id"] = i + 100
+    # rarely: a property with the name of a position column ("arbitrary property tables")
+    clash = None
+    if rng.random() < 0.04:
+        clash = rng.choice(["longitude", "latitude"])
+        f = rng.randrange(nfeat)
+        val = rng.choice([99.0, 7, -12.5])
+        if not isinstance(feats[f].get("properties"), dict):
+            feats[f]["properties"] = {}
+        feats[f]["properties"][clash] = val
+        flat = [(g, p, feats[g]["properties"] if g == f else pr) for g, p, pr in flat]
+        tags.append("props.position_name")
+    return doc, flat, feats, tags, clash
 
 
 def run(ctx):
@@ -56,13 +262,14 @@ def run(ctx):
         drv.available = False
     pend = []
     for c in range(ctx.n(250, 5000)):
-        polys = gen_polys(ctx.rng)
+        clon, clat, rr, ctag = gen_centre(ctx.rng)
+        polys = gen_polys(ctx.rng, clon=clon, clat=clat, r=rr)
         n = ctx.rng.choice([0, 1, 2, 5, 17, 40])
         plat = [np.array([p[1] for p in poly]) for poly in polys]
         plon = [np.array([p[0] for p in poly]) for poly in polys]
         cs = dict(polys=polys, n=n)
         ctx.case(key=("poly", repr(polys), n), nontrivial=n > 0, sample=dict(n=n, npoly=len(polys), nvert=[len(p) for p in polys]) if c < 3 else None)
-        ctx.branch("npoly=%d" % len(polys)); ctx.size("num", n)
+        ctx.branch("npoly=%d" % len(polys)); ctx.size("num", n); ctx.branch("latlon_from_poly.centre." + ctag)
         single = len(polys) == 1 and ctx.rng.random() < 0.5
         try:
             with RngRecorder(ctx.sub_seed(), ibmrun.tail_injector(ctx.rng, 0.1)) as rec:
@@ -73,7 +280,7 @@ def run(ctx):
         except Exception as e:
             ctx.oracle(False, "C03.latlon_from_poly.raises", SITE, "raised %r" % (e,), cs)
             continue
-        check_positions(ctx, drv, pend, mk, polys, lat, lon, polynum, rec, cs, "latlon_from_poly")
+        check_positions(ctx, drv, pend, mk, polys, lat, lon, polynum, rec, cs, "latlon_from_poly", num=n)
         exp = [("rand", (n,)), ("rand", (2 * n,))]
         if rec.schedule() != exp:
             ctx.disagreement("latlon_from_poly.draw_schedule", "model declares %r, implementation requested %r" % (exp, rec.schedule()), cs)
@@ -85,42 +292,103 @@ def run(ctx):
         for k, poly in enumerate(polys):
             ok, msg = geom.valid_triangulation([(p[1], p[0]) for p in poly], [t for t, j in zip(tris, pidx) if j == k])
             ctx.oracle(ok, "C03.triangulation.invalid", SITE + "::triangulate_nonconvex", msg, dict(cs, polygon=k))
-        if drv.available and n > 0:
+        if drv.available and n > 0 and len(lat) == n and len(lon) == n and len(polynum) == n:
             u = rec.log[0][3]; st = rec.log[1][3]
             pts = " ".join("%s %s %s" % (F(u[i]), F(st[i]), F(st[n + i])) for i in range(n))
             j = drv.ask("sample.points", tri_toks(tris), I(n), pts)
             pend.append((j, lat, lon, polynum, pidx, cs))
+        # ---- the sibling sampler of the same file (chooses fan / constrained triangulation by its own convexity test):
+        #      the same polygon, started at another vertex, must be sampled inside as well
+        if ctx.rng.random() < 0.4:
+            poly = ctx.rng.choice(polys)
+            s = ctx.rng.randrange(len(poly))
+            rot = poly[s:] + poly[:s]
+            n2 = ctx.rng.choice([0, 1, 7, 30])
+            orient = [geom._orient(rot[i - 1], rot[i], rot[(i + 1) % len(rot)]) for i in range(len(rot))]
+            convex = len(set(orient)) == 1
+            reflex0 = orient[0] != (1 if geom.shoelace(rot) > 0 else -1)
+            ctx.branch("get_polygon_sample." + ("convex" if convex else "nonconvex.reflex_at_start" if reflex0 else "nonconvex"))
+            cs2 = dict(polygon=rot, n=n2)
+            try:
+                with RngRecorder(ctx.sub_seed(), ibmrun.tail_injector(ctx.rng, 0.1)):
+                    x, y = mk.get_polygon_sample(np.array(rot, dtype=float), n2)
+            except Exception as e:
+                ctx.oracle(False, "C03.get_polygon_sample.raises", SITE + "::get_polygon_sample", "raised %r" % (e,), cs2)
+            else:
+                ctx.oracle(len(x) == n2 and len(y) == n2, "C03.get_polygon_sample.count", SITE + "::get_polygon_sample",
+                           "%d requested, %d / %d returned" % (n2, len(x), len(y)), cs2)
+                for i in range(min(len(x), len(y))):
+                    ctx.oracle(geom.inside_tol(rot, x[i], y[i]), "C03.get_polygon_sample.outside_polygon", SITE + "::get_polygon_sample",
+                               "sample %d at (%r, %r) is outside the polygon" % (i, x[i], y[i]), dict(cs2, particle=i))
     # ---- get_location forms: axis convention, point, offsets, geojson
     for c in range(ctx.n(150, 3000)):
         form = ctx.rng.choice(["point", "poly", "multi", "offset", "geojson", "geojson"])
-        n = ctx.rng.choice([1, 3, 10, 25])
-        ctx.case(key=("loc", form, c, n), nontrivial=True); ctx.branch("form." + form)
+        n = ctx.rng.choice([1, 3, 10, 25, 0, 2])
+        ctx.case(key=("loc", form, c, n), nontrivial=n > 0); ctx.branch("form." + form); ctx.size("num." + form, n)
         if form == "point":
             lon0 = ctx.rng.uniform(-180, 180); lat0 = ctx.rng.uniform(-89, 89)
-            out = mk.get_location([lon0, lat0], n)
+            kind = ctx.rng.choice(["float", "float", "int", "numpy", "tuple", "mixed"])
+            if kind == "int":
+                lon0 = int(round(lon0)); lat0 = int(round(lat0))
+            elif kind == "numpy":
+                lon0 = np.float64(lon0); lat0 = np.float64(lat0)
+            elif kind == "mixed":
+                lon0 = int(round(lon0))
+            ctx.branch("point." + kind)
+            spec = (lon0, lat0) if kind == "tuple" else [lon0, lat0]
+            with RngRecorder(ctx.sub_seed()) as rec:
+                out = mk.get_location(spec, n)
             ctx.oracle(out["longitude"] == [lon0] * n and out["latitude"] == [lat0] * n, "C03.point.not_exact", SITE + "::get_location",
                        "point (%r,%r) -> %r" % (lon0, lat0, (out["longitude"][:2], out["latitude"][:2])), dict(lon=lon0, lat=lat0, n=n))
+            ctx.oracle(len(out["longitude"]) == n and len(out["latitude"]) == n, "C03.point.count", SITE + "::get_location",
+                       "%d particles requested, %d / %d returned" % (n, len(out["longitude"]), len(out["latitude"])), dict(lon=lon0, lat=lat0, n=n))
+            if rec.schedule() != []:
+                ctx.disagreement("get_location.point.draw_schedule", "a point location draws nothing in the model, implementation requested %r" % (rec.schedule(),), dict(lon=lon0, lat=lat0, n=n))
             continue
         if form in ("poly", "multi"):
-            polys = gen_polys(ctx.rng, k=1 if form == "poly" else ctx.rng.randrange(2, 4))
+            clon, clat, rr, ctag = gen_centre(ctx.rng)
+            polys = gen_polys(ctx.rng, k=1 if form == "poly" else ctx.rng.randrange(2, 4), clon=clon, clat=clat, r=rr)
+            ctx.branch("get_location.centre." + ctag)
+            cont = ctx.rng.choice(["list", "list", "numpy", "tuple"])
+            conv = {"list": list, "numpy": np.array, "tuple": tuple}[cont]
+            ctx.branch("get_location.container." + cont)
             if form == "poly":
-                spec = [[p[0] for p in polys[0]], [p[1] for p in polys[0]]]
+                spec = [conv([p[0] for p in polys[0]]), conv([p[1] for p in polys[0]])]
             else:
-                spec = [[[p[0] for p in poly] for poly in polys], [[p[1] for p in poly] for poly in polys]]
-            with RngRecorder(ctx.sub_seed()):
-                out = mk.get_location(spec, n)
-            cs = dict(form=form, polys=polys, n=n)
-            check_positions(ctx, drv, pend, mk, polys, out["latitude"], out["longitude"], None, None, cs, "get_location")
+                spec = [[conv([p[0] for p in poly]) for poly in polys], [conv([p[1] for p in poly]) for poly in polys]]
+            if cont == "tuple":
+                spec = tuple(spec)
+            cs = dict(form=form, polys=polys, n=n, container=cont)
+            try:
+                with RngRecorder(ctx.sub_seed(), ibmrun.tail_injector(ctx.rng, 0.1)) as rec:
+                    out = mk.get_location(spec, n)
+            except Exception as e:
+                ctx.oracle(False, "C03.get_location.raises", SITE + "::get_location", "raised %r" % (e,), cs)
+                continue
+            check_positions(ctx, drv, pend, mk, polys, out["latitude"], out["longitude"], None, None, cs, "get_location", num=n)
+            check_schedule(ctx, rec, n, "get_location." + form, cs)
             continue
         if form == "offset":
             # centres anywhere, including next to / on the antimeridian and the prime meridian
             clon = ctx.rng.choice([ctx.rng.uniform(-170, 170), ctx.rng.uniform(-170, 170), 179.9, -179.95, 180.0, -180.0, 0.0, 179.9999]); clat = ctx.rng.choice([-89.0, -60.0, 0.0, 45.0, 70.0, 89.0, ctx.rng.uniform(-89, 89)])
             off = geom.random_polygon(ctx.rng, ctx.rng.uniform(-200, 200), ctx.rng.uniform(-200, 200), ctx.rng.choice([50.0, 500.0, 5000.0]))
+            if ctx.rng.random() < 0.25:
+                # the documented form: whole numbers of degrees and metres (YAML gives ints)
+                clon = int(round(clon)); clat = max(-88, min(88, int(round(clat))))
+                off = int_polygon(ctx.rng, ctx.rng.randrange(-200, 201), ctx.rng.randrange(-200, 201), ctx.rng.choice([50.0, 500.0, 5000.0]))
+                ctx.branch("offset.int")
             spec = dict(center=[clon, clat], offset=[[p[0] for p in off], [p[1] for p in off]])
-            with RngRecorder(ctx.sub_seed()):
-                out = mk.get_location(spec, n)
             cs = dict(form=form, center=[clon, clat], offset=off, n=n)
-            for i in range(n):
+            try:
+                with RngRecorder(ctx.sub_seed(), ibmrun.tail_injector(ctx.rng, 0.1)) as rec:
+                    out = mk.get_location(spec, n)
+            except Exception as e:
+                ctx.oracle(False, "C03.offset.raises", SITE + "::get_location_offset", "raised %r" % (e,), cs)
+                continue
+            ctx.oracle(len(out["longitude"]) == n and len(out["latitude"]) == n, "C03.offset.count", SITE + "::get_location_offset",
+                       "%d particles requested, %d / %d returned" % (n, len(out["longitude"]), len(out["latitude"])), cs)
+            check_schedule(ctx, rec, n, "get_location.offset", cs)
+            for i in range(min(len(out["longitude"]), len(out["latitude"]))):
                 dx, dy = mk.degree_diff_to_metric(out["longitude"][i] - clon, out["latitude"][i] - clat, clat)
                 scale = max(max(abs(a), abs(b)) for a, b in off) + 1
                 ok = geom.inside_exact(off, dx, dy) or geom.dist_to_boundary(off, dx, dy) <= 1e-6 * scale
@@ -132,46 +400,56 @@ def run(ctx):
             bx, by = mk.degree_diff_to_metric(dl, dp, clat)
             ctx.oracle(abs(bx - dx0) <= 1e-9 * (1 + abs(dx0)) and abs(by - dy0) <= 1e-9 * (1 + abs(dy0)), "C03.conversion.not_inverse", SITE,
                        "(%r,%r) m -> deg -> (%r,%r) m at lat %r" % (dx0, dy0, bx, by, clat), dict(lat=clat))
+            # inverses in both directions, sequence arguments, and the WGS84 radii: at the centre's latitude and at another one
+            for lat_ in (clat, ctx.rng.choice([89.0, -89.0, 88.9, -88.9, 88.0, -88.0, 60.0, -60.0, 0.0, 60, ctx.rng.uniform(-89, 89)])):
+                try:
+                    conversion_checks(ctx, mk, lat_)
+                except Exception as e:
+                    ctx.oracle(False, "C03.conversion.raises", SITE, "conversion at reference latitude %r raised %r" % (lat_, e), dict(lat=lat_))
             continue
         # geojson
-        nfeat = ctx.rng.randrange(1, 5)
-        feats = []; flat = []
-        base_lon = ctx.rng.uniform(-20, 20); base_lat = ctx.rng.uniform(-50, 60)
-        kpoly = 0
-        for f in range(nfeat):
-            npol = ctx.rng.randrange(1, 4)
-            ps = []
-            for q in range(npol):
-                ps.append(geom.random_polygon(ctx.rng, base_lon + 3.0 * kpoly, base_lat + 0.2 * kpoly, 1.0)); kpoly += 1
-            props = {}
-            for name in ("region", "farmid", "w"):
-                if ctx.rng.random() < 0.7:
-                    props[name] = ctx.rng.choice([f + 1, 10.5 * (f + 1), 7])
-            ring = lambda p: [[x, y] for x, y in p] + [[p[0][0], p[0][1]]]
-            if npol == 1 and ctx.rng.random() < 0.5:
-                geomj = dict(type="Polygon", coordinates=[ring(ps[0])])
-            else:
-                geomj = dict(type="MultiPolygon", coordinates=[[ring(p)] for p in ps])
-            feat = dict(type="Feature", geometry=geomj)
-            if props or ctx.rng.random() < 0.5:
-                feat["properties"] = props
-            feats.append(feat)
-            for p in ps:
-                flat.append((f, p, props))
-        doc = dict(type="FeatureCollection", features=feats)
-        cs = dict(form=form, geojson=doc, n=n)
+        doc, flat, feats, tags, clash = gen_geojson(ctx)
+        for t in tags:
+            ctx.branch("geojson." + t)
+        via = ctx.rng.choice(["stream", "stream", "path"])
+        ctx.branch("geojson.via." + via)
+        cs = dict(form=form, geojson=doc, n=n, via=via)
+        path = None
         try:
-            with RngRecorder(ctx.sub_seed()):
-                out = mk.get_location(io.StringIO(json.dumps(doc)), n)
+            with RngRecorder(ctx.sub_seed(), ibmrun.tail_injector(ctx.rng, 0.1)) as rec:
+                if via == "stream":
+                    out = mk.get_location(io.StringIO(json.dumps(doc)), n)
+                else:
+                    with tempfile.NamedTemporaryFile("w", suffix=".geojson", encoding="utf-8", delete=False) as fh:
+                        path = fh.name
+                        json.dump(doc, fh, ensure_ascii=False)       # non-ASCII names and texts as UTF-8 bytes
+                    out = mk.get_location(path, n)
         except Exception as e:
             ctx.oracle(False, "C03.geojson.raises", SITE + "::get_location_file", "raised %r" % (e,), cs)
             continue
+        finally:
+            if path is not None and os.path.exists(path):
+                os.unlink(path)
+        check_schedule(ctx, rec, n, "get_location.geojson", cs)
         allprops = []
         for f_ in feats:
-            for k_ in f_.get("properties", {}):
+            for k_ in (f_.get("properties") or {}):
                 if k_ not in allprops:
                     allprops.append(k_)
-        for i in range(n):
+        lens = dict((k_, len(out[k_])) for k_ in ["longitude", "latitude"] + [a for a in allprops if a in out])
+        ctx.oracle(all(l == n for l in lens.values()), "C03.geojson.count", SITE + "::get_location_file",
+                   "%d particles requested, returned columns have lengths %r" % (n, lens), cs)
+        if clash is not None and n > 0:
+            # the table has one column of that name: if it holds the feature property (value or no value) for every particle,
+            # the positions are gone.  Judged on its own, so that this explanation is not mixed with any other failure.
+            vals = [pr.get(clash) if isinstance(pr, dict) else None for _, _, pr in flat]
+            col = out[clash]
+            if all(any(prop_same(v, w) for w in vals) for v in col):
+                ctx.oracle(False, "C03.geojson.property_replaces_position", SITE + "::get_location",
+                           "a feature property called %r replaces the particles' %s: %r" % (clash, clash, col[:5]), cs)
+                continue
+        m = min(lens.values())
+        for i in range(m):
             x, y = out["longitude"][i], out["latitude"][i]
             owners = [(f, props) for f, p, props in flat if geom.inside_tol(p, x, y)]
             ctx.oracle(len(owners) >= 1, "C03.geojson.outside_polygon", SITE + "::get_location_file",
@@ -179,11 +457,17 @@ def run(ctx):
             if len(owners) == 1:
                 f, props = owners[0]
                 for name in allprops:
+                    if name == clash:
+                        continue
                     got = out.get(name, [None] * n)[i]
                     want = props.get(name, float("nan"))
                     same = (got == want) or (isinstance(got, float) and got != got and want != want)
+                    if want is None:
+                        same = is_none(got)          # a null value: no value (ASSUMPTIONS)
+                    else:
+                        same = same and prop_same(got, want)
                     ctx.oracle(same, "C03.geojson.property_join", SITE + "::get_location_file",
-                               "particle %d in feature %d: property %s = %r, feature has %r" % (i, f, name, got, want), dict(cs, particle=i))
+                               "particle %d in feature %d: property %s = %r (%s), feature has %r (%s)" % (i, f, name, got, type(got).__name__, want, type(want).__name__), dict(cs, particle=i))
     if drv.available:
         rep = drv.run()
         for j, lat, lon, polynum, pidx, cs in pend:
